@@ -19,13 +19,14 @@ def fbits(x):
     return "x%016x" % struct.unpack(">Q", struct.pack(">d", x))[0]
 
 
-DEFAULT = dict(nodes=(1, 3), procs=(1, 4), p_fault=0.35, p_link=0.3, p_crash=0.25, p_skew=0.3, p_random_delay=0.5,
+DEFAULT = dict(mc={}, nodes=(1, 3), procs=(1, 4), p_fault=0.35, p_link=0.3, p_crash=0.25, p_skew=0.3, p_random_delay=0.5,
                ops=(6, 18), p_clock=0.15, p_rand=0.1, seeds=12)
 
 
 def gen_scenario(rng, prof=None):
     prof = dict(DEFAULT, **(prof or {}))
-    mprof = mc_suite.profile(nodes=prof["nodes"], procs=prof["procs"], locals=(1, 3), p_fault=0, p_link=0, p_crash=0, p_mode=0)
+    mprof = mc_suite.profile(**dict(dict(nodes=prof["nodes"], procs=prof["procs"], locals=(1, 3), p_fault=0, p_link=0, p_crash=0, p_mode=0),
+                                    **prof.get("mc", {})))
     base = mc_suite.gen_scenario(rng, mprof)
     topo = [l for l in base if l.startswith(("node", "proc"))]
     rules = [l for l in base if l.startswith("rule")]
@@ -106,6 +107,35 @@ def gen_scenario(rng, prof=None):
             ops.append("obs")
     lines += ops
     lines += ["until_none", "obs"]
+    return lines
+
+
+def gen_link_matrix(rng):
+    """C05: random link-control operations, then every process sends to every other one, in both directions"""
+    nn = rng.choice([2, 3, 3])
+    nodes = [f"n{i}" for i in range(nn)]
+    procs = [f"p{i}" for i in range(nn + rng.choice([0, 1]))]
+    loc = {p: nodes[i % nn] for i, p in enumerate(procs)}
+    seed = rng.randrange(DEFAULT["seeds"])
+    lines = [f"seed {seed}", f"draws {draws_for(seed)}"] + [f"node {n}" for n in nodes] + [f"proc {p} {loc[p]}" for p in procs]
+    for p in procs:
+        sends = " ".join(f"S:m1:=x{p[1]}:{q}" for q in procs if q != p)
+        lines.append(f"rule {p} 0 L:m0 0 {sends}")
+        lines.append(f"rule {p} 0 M:m1 0 L:m2:$")
+    lines.append(f"net delay {rng.choice([1, 2])}")
+    rounds = rng.randint(1, 3)
+    for _ in range(rounds):
+        for _ in range(rng.randint(1, 6)):
+            a, b = rng.sample(nodes, 2)
+            lines.append("net " + rng.choice([f"disable {a} {b}", f"enable {a} {b}", f"enable {b} {a}", f"disable {b} {a}",
+                                             f"partition {a} / {b}", f"drop_in {a}", f"pass_in {a}", f"drop_out {a}", f"pass_out {a}",
+                                             f"disconnect {a}", f"connect {a}", "reset"]))
+        for p in procs:
+            lines.append(f"local {p} m0 =go")
+        lines.append("steps 40")
+        for p in procs:
+            lines.append(f"read {p}")
+    lines.append("obs")
     return lines
 
 
